@@ -10,13 +10,13 @@
 set -u
 ID=$1; K=$2; SRC=${3:-/tmp/mut/$ID.out/$K}
 export GOFLAGS=-mod=mod GOPROXY=off GOSUMDB=off GOTOOLCHAIN=local
-W=/tmp/mut/eval-$ID-$K
+W=/tmp/mut/eval-${NAME:-$ID-$K}
 git -C /repo worktree remove --force "$W" >/dev/null 2>&1
 git -C /repo worktree add --detach "$W" HEAD >/dev/null 2>&1 || { echo "cannot create worktree"; exit 2; }
 cleanup() { git -C /repo worktree remove --force "$W" >/dev/null 2>&1; rm -rf "$W"; }
 trap cleanup EXIT
 R=/tmp/mut/results; mkdir -p $R
-LOG=$R/$ID-$K.log; : > $LOG
+LOG=$R/${NAME:-$ID-$K}.log; : > $LOG
 DEMO_DIR=$(cat "$SRC/DEMO_DIR" 2>/dev/null | tr -d '\n' || echo .)
 [ -z "$DEMO_DIR" ] && DEMO_DIR=.
 DEMO=$(ls "$SRC"/*_test.go 2>/dev/null | head -1)
@@ -28,8 +28,8 @@ cd "$W"
 cp "$DEMO" "$W/$DEMO_DIR/seeded_demo_test.go"
 if (cd "$W/$DEMO_DIR" && timeout 900 ${DEMO_GO:-go} test ${DEMO_FLAGS:-} -vet=off -count=1 -run "$RUNRE" . >>$LOG 2>&1); then CLEAN_DEMO=pass; else CLEAN_DEMO=fail; fi
 rm -f "$W/$DEMO_DIR/seeded_demo_test.go"
-if ! git apply "$SRC/patch.diff" >>$LOG 2>&1; then status "RESULT $ID-$K patch-does-not-apply"; exit 1; fi
-if ! go build ./... >>$LOG 2>&1; then status "RESULT $ID-$K does-not-compile"; exit 1; fi
+if ! git apply "$SRC/patch.diff" >>$LOG 2>&1; then status "RESULT ${NAME:-$ID-$K} patch-does-not-apply"; exit 1; fi
+if ! go build ./... >>$LOG 2>&1; then status "RESULT ${NAME:-$ID-$K} does-not-compile"; exit 1; fi
 if timeout 1500 go test -vet=off -count=1 ./... >>$LOG 2>&1; then SUITE=pass; else SUITE=fail; fi
 cp "$DEMO" "$W/$DEMO_DIR/seeded_demo_test.go"
 if (cd "$W/$DEMO_DIR" && timeout 900 ${DEMO_GO:-go} test ${DEMO_FLAGS:-} -vet=off -count=1 -run "$RUNRE" . >>$LOG 2>&1); then MUT_DEMO=pass; else MUT_DEMO=fail; fi
@@ -38,14 +38,14 @@ CONFIRMED=no
 if [ $SUITE = pass ] && [ $CLEAN_DEMO = pass ] && [ $MUT_DEMO = fail ]; then CONFIRMED=yes; fi
 VERDICTS=""
 for P in $ID ${ALSO:-}; do
-  OUT=$(MUT_KEEP=$R/$ID-$K.keep.$P /verif/tools/mutrun.sh "$W" $P quick 2>&1); RC=$?
+  OUT=$(MUT_KEEP=$R/${NAME:-$ID-$K}.keep.$P /verif/tools/mutrun.sh "$W" $P quick 2>&1); RC=$?
   echo "--- check $P rc=$RC" >>$LOG; echo "$OUT" >>$LOG
   if echo "$OUT" | grep -q "^VIOLATION"; then V=caught; elif [ $RC -eq 0 ]; then V=missed; else V=error; fi
   VERDICTS="$VERDICTS $P=$V"
 done
-status "RESULT $ID-$K confirmed=$CONFIRMED suite=$SUITE demo_clean=$CLEAN_DEMO demo_mut=$MUT_DEMO checks:$VERDICTS"
+status "RESULT ${NAME:-$ID-$K} confirmed=$CONFIRMED suite=$SUITE demo_clean=$CLEAN_DEMO demo_mut=$MUT_DEMO checks:$VERDICTS"
 if [ $CONFIRMED = yes ]; then
-  D=/verif/seeded/$ID-$K; mkdir -p $D
+  D=/verif/seeded/${NAME:-$ID-$K}; mkdir -p $D
   cp "$SRC/patch.diff" $D/patch.diff; cp "$DEMO" $D/seeded_demo_test.go; echo "$DEMO_DIR" > $D/DEMO_DIR
   python3 - "$SRC/meta.json" "$D/meta.json" "$ID" "$VERDICTS" <<'EOF'
 import json,sys
